@@ -7,6 +7,8 @@
 (*                                           ended with outcome (the reference for HistoryIndependent)         *)
 (*   Call{ep, call, shape}                   written and flushed BEFORE the real code is entered; call = the    *)
 (*                                           number of the call on this instance                               *)
+(*   Aux{ep, call, req, at, answer, delivered}  the real code made the auxiliary request req at provider `at`   *)
+(*                                           on behalf of call `call` and got a value / a fault back             *)
 (*   Use{ep, call, use, outcome}             a consumer of the call ran (execservice)                          *)
 (*   Return{ep, call, outcome}               the call came back: ok | error | fallback                         *)
 (*   Undeliverable{ep, call}                 the library decoder does not deliver this (gated) input           *)
@@ -20,63 +22,87 @@
 (* A Return of the probe input with an outcome other than Fresh's has no action either (Return's guard).     *)
 EXTENDS RobustnessInst, TraceLib
 
-VARIABLE l
-tvars == <<ivars, l>>
+VARIABLES l,
+          tshape,     \* call number -> the shape it was started with (the model keeps the KIND of an input only)
+          shared      \* calls that had another call in flight next to them (they shared the nodes with it)
+tvars == <<ivars, l, tshape, shared>>
 
-TraceInit == l = 1 /\ Init /\ InitHWM
+TraceInit == l = 1 /\ Init /\ InitHWM /\ tshape = << >> /\ shared = {}
 
 IsEvent(e) == l <= TraceLen /\ Trace[l].ev = e /\ l' = l + 1
 
 TraceReset ==
     /\ IsEvent("Reset")
     /\ inst' = NoInst /\ ncalls' = 0 /\ inflight' = << >> /\ ended' = {} /\ fresh' = "none" /\ alive' = TRUE
+    /\ tshape' = << >> /\ shared' = {}
 
 TraceInstance ==
     /\ IsEvent("Instance")
     /\ Trace[l].ep \in EPs /\ Trace[l].of \in Lattice[Trace[l].ep]
     /\ ProbeOf(Trace[l].ep, Trace[l].of) = Trace[l].of          \* a configuration is named by its probe shape
     /\ NewInstance(Trace[l].ep, Trace[l].of)
+    /\ UNCHANGED <<tshape, shared>>
 
 TraceFresh ==
     /\ IsEvent("Fresh")
     /\ inst # NoInst /\ Trace[l].ep = inst.ep /\ Trace[l].shape = inst.of
     /\ Probe(Trace[l].outcome)
+    /\ UNCHANGED <<tshape, shared>>
 
 TraceCall ==
     /\ IsEvent("Call")
     /\ inst # NoInst /\ Trace[l].ep = inst.ep
     /\ Trace[l].call = ncalls + 1
     /\ Call(Trace[l].shape)
+    /\ tshape' = [c \in DOMAIN tshape \cup {Trace[l].call} |-> IF c = Trace[l].call THEN Trace[l].shape ELSE tshape[c]]
+    /\ shared' = IF InFlight = {} THEN shared ELSE shared \cup InFlight \cup {Trace[l].call}
+
+\* The fake gave the answer that the input of THIS call chose for that request, and what it delivered is of that
+\* answer's class.  A call that shared the nodes with another call in flight may have been answered from that
+\* call's script, and a node that one of the two inputs takes down / brings up may be in the other's state.
+TraceAux ==
+    /\ IsEvent("Aux")
+    /\ Trace[l].call \in InFlight
+    /\ LET a == [req |-> Trace[l].req, at |-> Trace[l].at, answer |-> Trace[l].answer]
+       IN  IF Trace[l].call \in shared
+           THEN \E d \in shared : a \in AuxRequests(inst.ep, tshape[d])
+           ELSE a \in AuxRequests(inst.ep, tshape[Trace[l].call]) /\ Trace[l].delivered = AuxClass(Trace[l].answer)
+    /\ Aux(Trace[l].call, Trace[l].delivered)
+    /\ UNCHANGED <<tshape, shared>>
 
 TraceUse ==
     /\ IsEvent("Use")
     /\ Use(Trace[l].call, Trace[l].use, Trace[l].outcome)
+    /\ UNCHANGED <<tshape, shared>>
 
 TraceReturn ==
     /\ IsEvent("Return")
     /\ Return(Trace[l].call, Trace[l].outcome)
+    /\ UNCHANGED <<tshape, shared>>
 
 TraceUndeliverable ==
     /\ IsEvent("Undeliverable")
     /\ Undeliverable(Trace[l].call)
+    /\ UNCHANGED <<tshape, shared>>
 
 TraceDecoderPanic ==
     /\ IsEvent("DecoderPanic")
     /\ IF Trace[l].fatal THEN DecoderPanicFatal ELSE DecoderPanic(Trace[l].call)
+    /\ UNCHANGED <<tshape, shared>>
 
 \* the environment holds the call at the gate (the next call will run next to it)
 TraceHeld ==
     /\ IsEvent("Held")
     /\ Trace[l].call \in InFlight
-    /\ UNCHANGED ivars
+    /\ UNCHANGED <<ivars, tshape, shared>>
 
 \* the end of a history: nothing is in flight any more (a call that never came back is a Hung line before)
 TraceClose ==
     /\ IsEvent("Close")
     /\ inst # NoInst /\ InFlight = {}
-    /\ UNCHANGED ivars
+    /\ UNCHANGED <<ivars, tshape, shared>>
 
-TraceNext == \/ TraceReset \/ TraceInstance \/ TraceFresh \/ TraceCall \/ TraceUse \/ TraceReturn
+TraceNext == \/ TraceReset \/ TraceInstance \/ TraceFresh \/ TraceCall \/ TraceAux \/ TraceUse \/ TraceReturn
              \/ TraceUndeliverable \/ TraceDecoderPanic \/ TraceHeld \/ TraceClose
 
 TraceSpec == TraceInit /\ [][TraceNext]_tvars
